@@ -124,6 +124,16 @@ class ScopeAnalysis:
         t = self.place_ty(B, pl)
         if t is None:
             return None
+        if t.startswith("(") and len(pl) == 1 and "Scope" in t:
+            # the argument tuple of a closure / evaluator call `f(scope)`: Fn::call(&f, (scope,))
+            defs = B.defs.get(pl[0], [])
+            if len(defs) == 1 and defs[0][2] == "assign" and defs[0][3][2][0] == "Agg" and defs[0][3][2][1] == "tuple":
+                vs = [self.external_scope_operand(B, x) for x in defs[0][3][2][2]]
+                if any(v is True for v in vs):
+                    return True
+                if any(v is False for v in vs):
+                    return False
+            return None
         if self.is_carrier_ref(t):
             return True
         if not is_scope_ref_ty(t):
